@@ -62,8 +62,10 @@ def main(argv):
     results = []
     undecided = []
     try:
-        for (unit, mode, modules) in P['units']:
-            r = run.run_unit(unit, mode, workdir, modules=modules)
+        for u in P['units']:
+            unit, mode, modules = u[0], u[1], u[2]
+            only = u[3] if len(u) > 3 else None
+            r = run.run_unit(unit, mode, workdir, modules=modules, only=only)
             results.append(r)
     except gen.GenError as e:
         undecided.append('extraction: %s' % e)
@@ -71,11 +73,13 @@ def main(argv):
     stability = []
     if tier == 'thorough' and not undecided:
         for k in range(3):
-            for (unit, mode, modules) in P['units']:
+            for ui, u in enumerate(P['units']):
+                unit, mode, modules = u[0], u[1], u[2]
+                only = u[3] if len(u) > 3 else None
                 s = (seed * 7919 + 104729 * (k + 1)) % 100000
-                r2 = run.run_unit(unit, mode, workdir, modules=modules, seed=s, tag='_s%d' % k)
+                r2 = run.run_unit(unit, mode, workdir, modules=modules, seed=s, tag='_s%d' % k, only=only)
                 stability.append(dict(unit=unit, mode=mode, smt_seed=s, verified=r2.verified, errors=r2.errors))
-                base = [r for r in results if r.unit == unit and r.mode == mode][0]
+                base = results[ui]
                 if (r2.errors == 0) != (base.errors == 0):
                     undecided.append('unstable proof: %s mode %s flips under smt seed %d' % (unit, mode, s))
     # ---- classify ----
